@@ -4,7 +4,7 @@
    storage, with their measurement filter, against the specification directly. *)
 From Coq Require Import List ZArith NArith Bool Arith Lia.
 From TF Require Import Base Query Index DB Spec IndexSem DbSem proofs.BaseP proofs.MapRepP proofs.IndexDefs proofs.RepP proofs.GetterP
-     proofs.IndexGenP proofs.IndexGetP proofs.TagValsP.
+     proofs.IndexGenP proofs.IndexGetP proofs.TagValsP proofs.DBReadP.
 From TF Require gen.IndexGen gen.DbGetGen.
 Import ListNotations.
 Import DbGetGen.
@@ -228,4 +228,31 @@ Proof.
         unfold c in Hc. cbn [nonempty_list andb] in Hc. rewrite negb_involutive in Hc. apply set_mem_In. exact Hc.
       * intros k Hk v. rewrite <- Hvals. split; [intros [[]|[_ H']]; exact H' | intros H'; right; split; [| exact H']].
         unfold c. cbn [nonempty_list andb]. rewrite negb_involutive. apply set_mem_In. exact Hk.
+Qed.
+
+(* ---------- len(handle): Measurement.__len__ ---------- *)
+Lemma count_loop (name : str) : forall (rows : list point) n,
+  fold_left (fun count item => if pyeq (p_meas item) name then count + 1 else count) rows n = n + length (filter (fun p => str_eqb (p_meas p) name) rows).
+Proof.
+  induction rows as [|p rows IH]; intros n; cbn [fold_left filter]. - cbn. lia.
+  - rewrite IH. change (pyeq (p_meas p) name) with (str_eqb (p_meas p) name). destruct (str_eqb (p_meas p) name); cbn [length]; lia.
+Qed.
+Theorem source_handle_len_is_the_model E C norm d name :
+  ONat (gen_meas___len__ d name) = snd (handle_step E C norm (abs_db d) name HLen).
+Proof.
+  unfold gen_meas___len__, abs_db. cbn [handle_step snd st_auto st_idx st_rows]. unfold abs. cbn [ix_valid ix_meas]. unfold abs_meas.
+  change (IndexGen.gen_valid (db_index d)) with (_valid (db_index d)).
+  destruct (db_auto d && _valid (db_index d)).
+  - rewrite <- d_has_im_has. destruct (d_has name (_measurements (db_index d))); [| reflexivity].
+    rewrite d_get_positions. unfold positions. rewrite map_length. reflexivity.
+  - cbv zeta. rewrite count_loop. reflexivity.
+Qed.
+Lemma DInv_Inv d : DInv d -> DBReadP.Inv (abs_db d).
+Proof. intros [Hw Hv]. split; [exact Hw|]. cbn [abs_db st_idx st_rows]. intros H. apply (Hv H). Qed.
+Theorem source_handle_len_exact d name : DInv d -> gen_meas___len__ d name = length (filter (fun p => str_eqb (p_meas p) name) (db_rows d)).
+Proof.
+  intros H. set (E0 := mkEnv (fun _ v => Some v) (fun _ _ => Some true) (fun _ _ _ => false) (fun _ _ _ => false)).
+  set (C0 := mkCenv (fun _ t => Some t) (fun _ m => Some m) (fun _ d => Some d) (fun _ d => Some d)).
+  pose proof (source_handle_len_is_the_model E0 C0 (fun p => p) d name) as E.
+  rewrite (handle_len_spec _ _ _ (abs_db d) name (DInv_Inv d H)) in E. cbn [snd] in E. injection E as E. exact E.
 Qed.
